@@ -344,7 +344,43 @@ func (l *line) crit(c *ovCrit) *line {
 	return l
 }
 
+// scrit writes a criteria tree with its operators (ovalscope op).
+func (l *line) scrit(c *ovCrit) *line {
+	l.str(c.Op).n(len(c.Subs))
+	for _, s := range c.Subs {
+		l.scrit(s)
+	}
+	l.n(len(c.Leaves))
+	for _, lf := range c.Leaves {
+		l.str(lf.TestRef).str(lf.Comment)
+	}
+	return l
+}
+
 func (l *line) ovalDoc(d *ovDoc, cpeOK func(string) bool) *line {
+	l.ovalRoot(d)
+	l.n(len(d.Defs))
+	for _, df := range d.Defs {
+		l.str(df.ID).str(df.Title).str(df.Desc).str(df.Severity).str(issuedTok(df.Issued)).strs(df.RefURLs).strs(df.AdvRefs).strs(df.Bugs).strs(df.CveHrefs)
+		l.n(len(df.Platforms))
+		for _, ps := range df.Platforms {
+			l.strs(ps)
+		}
+		l.n(len(df.CPEs))
+		for _, c := range df.CPEs {
+			ok := 0
+			if cpeOK(c) {
+				ok = 1
+			}
+			l.str(c).n(ok)
+		}
+		l.crit(df.Crit)
+	}
+	return l
+}
+
+// ovalRoot writes tests, objects, states and variables.
+func (l *line) ovalRoot(d *ovDoc) *line {
 	l.n(len(d.Tests))
 	for _, t := range d.Tests {
 		l.str(t.ID).str(t.Kind).strs(t.Objs).strs(t.States)
@@ -370,23 +406,6 @@ func (l *line) ovalDoc(d *ovDoc, cpeOK func(string) bool) *line {
 	l.n(len(d.Vars))
 	for _, v := range d.Vars {
 		l.str(v.ID).strs(v.Vals)
-	}
-	l.n(len(d.Defs))
-	for _, df := range d.Defs {
-		l.str(df.ID).str(df.Title).str(df.Desc).str(df.Severity).str(issuedTok(df.Issued)).strs(df.RefURLs).strs(df.AdvRefs).strs(df.Bugs).strs(df.CveHrefs)
-		l.n(len(df.Platforms))
-		for _, ps := range df.Platforms {
-			l.strs(ps)
-		}
-		l.n(len(df.CPEs))
-		for _, c := range df.CPEs {
-			ok := 0
-			if cpeOK(c) {
-				ok = 1
-			}
-			l.str(c).n(ok)
-		}
-		l.crit(df.Crit)
 	}
 	return l
 }
@@ -642,7 +661,12 @@ func runOval(r *hx.Run, g *gen, cfg hx.Config) {
 		}
 
 		// definitions
-		var wants []want   // what the feed states (module criteria scope over the packages below them)
+		type scopeCase struct {
+			crit  *ovCrit
+			pairs []string
+		}
+		var scopes []scopeCase // per rpm definition: its tree and the (package, module) pairs its groups state
+		var wants []want       // what the feed states (module criteria scope over the packages below them)
 		var flat []want    // what a walker pairing every package with every module comment of the definition returns
 		flattened := false // some definition has modules that do not scope over all of its packages
 		malformed := false
@@ -789,6 +813,14 @@ func runOval(r *hx.Run, g *gen, cfg hx.Config) {
 			} else {
 				groups, shape := g.rpmGroups(fl == "rhel" || g.r.Chance(1, 6))
 				d.Crit = b.rpmCriteria(groups)
+				sc := scopeCase{crit: d.Crit}
+				for _, gr := range groups {
+					for _, p := range gr.Pkgs {
+						sc.pairs = append(sc.pairs, hs(p.Pkg)+"@"+hs(gr.Module))
+					}
+				}
+				sortStrings(sc.pairs)
+				scopes = append(scopes, sc)
 				npk := 0
 				for _, gr := range groups {
 					npk += len(gr.Pkgs)
@@ -839,6 +871,14 @@ func runOval(r *hx.Run, g *gen, cfg hx.Config) {
 			out = canonAll(vs, err, false)
 		}
 		r.Op(l.String(), out, len(wants) > 0)
+		// The specification side: the Lean reading of the criteria WITH their operators (Model/FeedOvalScope.lean)
+		// must state exactly the (package, module) pairs the ground truth of each definition holds. (The left
+		// side of these lines is the generator's ground truth, not the parser: the parser ignores the operators.)
+		for _, sc := range scopes {
+			sl := (&line{}).tok("ovalscope")
+			sl.ovalRoot(&b.doc).scrit(sc.crit)
+			r.Op(sl.String(), strings.Join(append([]string{"ok " + strconv.Itoa(len(sc.pairs))}, sc.pairs...), " "), len(sc.pairs) > 0)
+		}
 		r.Count("oval:" + fl + ":vulns:" + bucket(len(wants)))
 		if obs != "" || err != nil {
 			r.Fail("", fmt.Sprintf("%s OVAL Parse of a well-formed document: %s%v feed=%s", fl, obs, err, clip(feed)))
